@@ -1,6 +1,6 @@
 """C04 - branches and PC-relative operands hit their target or are rejected."""
 from ..engine import sym
-from ..engine.interp import Rec, Bound
+from ..engine.interp import Rec, Bound, PyFn
 from ..engine.loader import Unknown
 from ..engine.sym import is_sym
 from ..rules.world import STATE, DOT, REL, Shapes, eager_interp
@@ -177,15 +177,46 @@ def rule_R4(ck):
         and captured[0].fields.get("name") == "10" and captured[0].fields.get("is_necessarily_label") is True
     if not ok:
         ck.violation(where, "a bare numeric branch operand that spells a local label is not resolved as that label", construct="numeric operand as label")
-    # a number that cannot be a label (e.g. '10.') keeps its value: resolve must not go through a Symbol
-    # (what happens then is C08's business: fixup_label)
+    # compound operands: only the FIRST leaf may turn into a label, and only if no symbol or '.' stands before it.
+    #   lab + 2  ->  the 2 stays the number 2;   . + 4 -> 4 stays;   1 + 2 -> label '1' plus the number 2;   2 + lab -> label '2' + lab
+    def run_case(build):
+        def res(I_, fn, args, kw):
+            tok = args[0]
+            return sym.var("sym:" + str(tok.fields.get("name")) + (":label" if tok.fields.get("is_necessarily_label") else ""), "int")
+        I2 = eager_interp(repo, extra={"types::Symbol.resolve": res})
+
+        def th():
+            sh = Shapes(I2)
+            st = I2.instantiate(I2.module_get("insns", "OffsetOperandStub"), ["o", list(range(7, -1, -1)), False], {})
+            op = build(sh)
+            op.fields["text"] = PyFn(lambda I_, a, k: "x+y", "text")
+            st_ = {"insn": sh.mk(I2.module_get("types", "Instruction"), None, None, sh.symbol("br"), []), "emit_address": DOT, "rel_address": REL}
+            I2.call_method(st, "encode", [op, st_])
+            return I2.call_method(op, "resolve", [st_])
+        ps = I2.explore(th)
+        vals = {repr(p_.value) for p_ in ps if p_.kind == "return"}
+        # the branch-range checks fork on the (symbolic) offset; the operand's value must be the same on every path
+        return ps[0].value if ps and len(vals) == 1 and all(p_.kind == "return" for p_ in ps) else ps
+    LAB, ONE, TWO, DOTV = sym.var("sym:lab", "int"), sym.var("sym:1:label", "int"), sym.var("sym:2:label", "int"), DOT
+    ip = lambda sh: sh.mk(eager_interp(repo).module_get("types", "InstructionPointer"), None, None)
+    for text, build, want in (
+            ("lab + 2", lambda sh: sh.bin("add", sh.symbol("lab"), sh.number("2", 2, True)), sym.add(LAB, 2)),
+            (". + 4", lambda sh: sh.bin("add", sh.mk(sh.types("InstructionPointer"), None, None), sh.number("4", 4, True)), sym.add(DOTV, 4)),
+            ("1 + 2", lambda sh: sh.bin("add", sh.number("1", 1, True), sh.number("2", 2, True)), sym.add(ONE, 2)),
+            ("2 + lab", lambda sh: sh.bin("add", sh.number("2", 2, True), sh.symbol("lab")), sym.add(TWO, LAB)),
+            ("lab - 2 + 4", lambda sh: sh.bin("add", sh.bin("sub", sh.symbol("lab"), sh.number("2", 2, True)), sh.number("4", 4, True)), sym.add(LAB, 2))):
+        got = run_case(build)
+        ck.instance(("compound-operand", text), {"operand": text, "value after label fix-up": repr(got)}, fn=where)
+        if got != want:
+            ck.violation(where, f"the branch operand '{text}' is evaluated as {got!r}, expected {want!r}: in a compound operand only a leading bare number is a local label; "
+                                "numbers after a symbol or '.' are numbers", construct=f"label fix-up in '{text}'", expected=repr(want), found=repr(got))
 
 
 def run(ck):
     ck.run_rule("C04.R1", "rel_address = '.' + 2 + bytes of preceding operand words (all rows)", 150, rule_R1)
     ck.run_rule("C04.R2", "relative / relative-deferred displacement words", 4, rule_R2)
     ck.run_rule("C04.R3", "branch/SOB displacement: accept set, parity, field value (cells over all integers)", 8, rule_R3)
-    ck.run_rule("C04.R4", "bare numeric operands are local labels", 1, rule_R4)
+    ck.run_rule("C04.R4", "bare numeric operands are local labels; compound operands: only a leading number", 6, rule_R4)
     ck.run_rule("C03.R7", "address arithmetic behind PC-relative targets (LinearPolynomial algebra)", 18, c03.rule_R7)
     from ..rules import thunks
     ck.run_rule("G1", "operand thunks read their own state: captured by value, never updated in place", 20, thunks.rule_G1)
